@@ -33,6 +33,11 @@ type chandler struct {
 	closeErr map[string]bool // OnClose err != nil
 	inTick   int32           // OnTick callbacks executing right now
 	slowTick bool
+	// mode openclose: OnOpen closes its connection (EventLoop.Close), opens an unrelated socket - which gets the
+	// descriptor number that has just become free - and still returns a reply
+	openClose  bool
+	victimAddr string
+	victims    []net.Conn
 }
 
 func (h *chandler) OnBoot(eng gnet.Engine) gnet.Action {
@@ -49,6 +54,14 @@ func (h *chandler) OnOpen(c gnet.Conn) ([]byte, gnet.Action) {
 	h.opened[key(c)]++
 	h.mu.Unlock()
 	h.log("open", key(c))
+	if h.openClose {
+		_ = c.EventLoop().Close(c)
+		if v, err := net.Dial("udp", h.victimAddr); err == nil {
+			h.mu.Lock()
+			h.victims = append(h.victims, v)
+			h.mu.Unlock()
+		}
+	}
 	return []byte("hi"), gnet.None
 }
 
@@ -279,6 +292,13 @@ func runClientLife(ws []string) string {
 	if mode == "slowtick" {
 		ticker = true
 	}
+	var victim net.PacketConn
+	if mode == "openclose" {
+		if v, err := net.ListenPacket("udp", "127.0.0.1:0"); err == nil {
+			victim = v
+			h.openClose, h.victimAddr = true, v.LocalAddr().String()
+		}
+	}
 	cli, err := gnet.NewClient(h, gnet.WithLogger(quiet{}), gnet.WithNumEventLoop(loops), gnet.WithTicker(ticker), gnet.WithEdgeTriggeredIO(et))
 	if err != nil {
 		return "result=newclient-failed"
@@ -301,11 +321,37 @@ func runClientLife(ws []string) string {
 		}
 		x := &cc{c: c, k: key(c)}
 		s.mu.Lock()
-		if s.opened[x.k] != 1 {
+		if s.opened[x.k] != 1 && !h.openClose { // (a connection that was closed inside OnOpen has lost its identity by now)
 			util.Fail(fmt.Sprintf("C03/C04: Dial returned although OnOpen ran %d times for the connection", s.opened[x.k]))
 		}
 		s.mu.Unlock()
 		conns = append(conns, x)
+	}
+	dialled := len(conns)
+	if h.openClose {
+		// C04 / C07: a connection that was closed inside OnOpen is finished - the reply OnOpen returned must not be
+		// sent on its descriptor number, which belongs to somebody else by now
+		buf := make([]byte, 64)
+		_ = victim.SetReadDeadline(time.Now().Add(150 * time.Millisecond))
+		if n, _, err := victim.ReadFrom(buf); err == nil {
+			util.Fail(fmt.Sprintf("C04/C07: the reply of OnOpen (%q) of a connection that was closed inside OnOpen was sent on its former descriptor number, which belonged to an unrelated socket by then", buf[:n]))
+		}
+		s.mu.Lock()
+		if len(s.opened) != dialled || len(s.closed) != dialled {
+			util.Fail(fmt.Sprintf("C04: %d connections were dialled and closed inside OnOpen: %d saw OnOpen, %d saw OnClose", dialled, len(s.opened), len(s.closed)))
+		}
+		for k, n := range s.closed {
+			if n != 1 || s.opened[k] != 1 {
+				util.Fail(fmt.Sprintf("C04: a connection closed inside OnOpen saw OnOpen %d times and OnClose %d times", s.opened[k], n))
+			}
+		}
+		for _, v := range h.victims {
+			_ = v.Close()
+		}
+		h.victims = nil
+		s.mu.Unlock()
+		_ = victim.Close()
+		conns = nil // nothing else to do with them
 	}
 	// asynchronous writes from this goroutine: carried out once each, in issue order (C03, C02)
 	for i, x := range conns {
@@ -560,8 +606,8 @@ func runClientLife(ws []string) string {
 			util.Fail(fmt.Sprintf("C04/C06: a client connection saw OnOpen %d times and OnClose %d times by the time Stop returned", n, s.closed[k]))
 		}
 	}
-	if len(s.opened) != len(conns) {
-		util.Fail(fmt.Sprintf("C04: %d connections were dialled, %d saw OnOpen", len(conns), len(s.opened)))
+	if len(s.opened) != dialled {
+		util.Fail(fmt.Sprintf("C04: %d connections were dialled, %d saw OnOpen", dialled, len(s.opened)))
 	}
 	evs := append([]event{}, s.evs...)
 	s.mu.Unlock()
